@@ -13,7 +13,7 @@ RULE = ("cases = (private key, message hash) pairs driven through ecdsa_raw_sign
         "satisfy the ECDSA verification equation in the model (and in OpenSSL for 32-byte hashes), recover must return d*G and the other v "
         "must raise or return another point; deterministic_generate_k is additionally observed by a wrapped monitor; "
         "distinct = distinct (key, hash); non-trivial = anything but the suite's single key/hash pair"
-        " Key/hash pairs whose RFC 6979 nonce has >= 20 zero bits at either end, found by running the model's HMAC-DRBG over 2^26 (quick) / 2^29 (thorough) candidates, are signed too.")
+        " Key/hash pairs whose RFC 6979 nonce has >= 20 zero bits at either end, found by running the model's HMAC-DRBG over 2^26 (quick) / 2^28 (thorough) candidates, are signed too.")
 ASSUMPTIONS = ["'RFC 6979 nonce' is read as HMAC-DRBG over priv||hash bytes, first candidate (identical to RFC 6979 for 32-byte hashes < N; anchored by the published secp256k1 key=1 'Satoshi Nakamoto' vector)"]
 P, N = MS.P, MS.N
 SUITE_KEY = bytes.fromhex("792eca682b890b31356247f2b04662bff448b6bb19ea1c8ab48da222c894ef9b")
@@ -149,7 +149,7 @@ def run(rec):
     # exceeds N-2^200: internal values of the specified algorithm with a structured bit pattern
     import hashlib as _hl
     import hmac as _hm
-    trials = (1 << 22) if quick else (1 << 25)
+    trials = (1 << 22) if quick else (1 << 24)
     dkey = rng.randrange(1, N).to_bytes(32, "big")
     best = []
     K0, V0 = b"\x00" * 32, b"\x01" * 32
